@@ -377,4 +377,504 @@ theorem bfsLoop_safe (pol : Policy) (sched : Sched) (Q : DFile → Prop)
           show f ∈ s.descriptors ++ (dedupFiles [] got).filter (fun f => f.name ∉ s.present)
           exact List.mem_append_left _ hf
 
+def initBfs (h : History) (descriptors : List DFile) : Bfs :=
+  { hist := h, descriptors := descriptors, present := fileNames descriptors,
+    missing := growMissing descriptors (fileNames descriptors) [] }
+
+theorem retrieveDependencies_eq (dedup : List DFile → List DFile) (cfg : Cfg) (pol : Policy) (sched : Sched)
+    (h : History) (ds : List DFile) :
+    retrieveDependencies dedup cfg pol sched h ds = bfsLoop dedup pol sched cfg.limit (initBfs h ds) := rfl
+
+theorem safeInv_init (h : History) (ds : List DFile) (hn : (fileNames ds).Nodup) : SafeInv (initBfs h ds) := by
+  constructor
+  · exact hn
+  · intro n; exact Iff.rfl
+  · intro f hf d hd
+    by_cases hp : d ∈ fileNames ds
+    · exact Or.inl hp
+    · exact Or.inr ((mem_growMissing _ _ _ _).2 (Or.inr ⟨⟨f, hf, hd⟩, hp⟩))
+
+/-- what a successful conversation guarantees whatever the target answered -/
+theorem runStream_safe (cfg : Cfg) (pol : Policy) (sched : Sched) (Q : DFile → Prop)
+    (hQ : ∀ h q fs, pol h q = .files fs → ∀ f ∈ fs, Q f)
+    (h : History) (ok : StreamOk) (hno : cfg.onlyServices = false)
+    (he : runStream (dedupFiles []) cfg pol sched = (h, .ok ok)) :
+    ∃ raw, pol [] .list = .listing raw ∧ ok.names = listServiceNames cfg raw ∧
+      Closed ok.files ∧ (fileNames ok.files).Nodup ∧ (∀ f ∈ ok.files, Q f) ∧
+      (∀ n ∈ ok.names, ∃ h'' fs, pol h'' (.symbol n) = .files fs ∧ ∀ f ∈ fs, f.name ∈ fileNames ok.files) := by
+  unfold runStream at he
+  simp only at he
+  cases ha : pol [] Request.list with
+  | error c => simp [ha] at he
+  | files fs => simp [ha] at he
+  | garbled fs => simp [ha] at he
+  | other t => simp [ha] at he
+  | listing raw =>
+    simp only [ha, hno, Bool.false_eq_true, ↓reduceIte] at he
+    refine ⟨raw, rfl, ?_⟩
+    cases hb : execBatch pol [(Request.list, Answer.listing raw)] ((listServiceNames cfg raw).map Request.symbol) with
+    | mk h1 r =>
+      cases r with
+      | error e => simp [hb] at he
+      | ok got =>
+        simp only [hb] at he
+        rw [retrieveDependencies_eq] at he
+        cases hl : bfsLoop (dedupFiles []) pol sched cfg.limit (initBfs h1 (dedupFiles [] got)) with
+        | mk h2 r2 =>
+          cases r2 with
+          | error e => simp [hl] at he
+          | ok ds =>
+            simp only [hl, Prod.mk.injEq, Except.ok.injEq] at he
+            rcases he with ⟨_, rfl⟩
+            have hgot := execBatch_ok pol _ _ _ _ hb
+            have hq0 : ∀ f ∈ (initBfs h1 (dedupFiles [] got)).descriptors, Q f := by
+              intro f hf
+              have hfg : f ∈ got := (mem_dedupFiles got [] f hf).1
+              rcases hgot.1 f hfg with ⟨h'', q, fs, _, b, c⟩
+              exact hQ h'' q fs b f c
+            rcases bfsLoop_safe pol sched Q hQ _ _ _ _ (safeInv_init h1 _ (nodup_dedupFiles got [])) hq0 hl with ⟨a, b, c, d⟩
+            refine ⟨rfl, a, b, c, ?_⟩
+            intro n hn
+            rcases hgot.2 (Request.symbol n) (List.mem_map.2 ⟨n, hn, rfl⟩) with ⟨h'', fs, e1, e2⟩
+            refine ⟨h'', fs, e1, fun f hf => ?_⟩
+            have h1' : f.name ∈ fileNames (dedupFiles [] got) :=
+              (dedupFiles_nil_names got f.name).2 (mem_fileNames.2 ⟨f, e2 f hf, rfl⟩)
+            rcases mem_fileNames.1 h1' with ⟨g, hg, hgn⟩
+            exact mem_fileNames.2 ⟨g, d g hg, hgn⟩
+
+/-! ### the BFS against a conformant target -/
+
+theorem eq_of_key_eq {α : Type} (key : α → Name) : ∀ {l : List α}, (l.map key).Nodup →
+    ∀ {a b : α}, a ∈ l → b ∈ l → key a = key b → a = b := by
+  intro l
+  induction l with
+  | nil => intro _ a b ha; simp at ha
+  | cons x rest ih =>
+    intro hn a b ha hb hk
+    simp only [List.map_cons, List.nodup_cons] at hn
+    rcases List.mem_cons.1 ha with e1 | ha'
+    · rcases List.mem_cons.1 hb with e2 | hb'
+      · rw [e1, e2]
+      · subst e1
+        exact absurd (List.mem_map.2 ⟨b, hb', hk.symm⟩) hn.1
+    · rcases List.mem_cons.1 hb with e2 | hb'
+      · subst e2
+        exact absurd (List.mem_map.2 ⟨a, ha', hk⟩) hn.1
+      · exact ih hn.2 ha' hb' hk
+
+theorem eq_of_name_eq {files : List DFile} (hn : (fileNames files).Nodup) {f g : DFile}
+    (hf : f ∈ files) (hg : g ∈ files) (h : f.name = g.name) : f = g :=
+  eq_of_key_eq (α := DFile) (fun x => x.name) (l := files) hn hf hg h
+
+structure LiveInv (srv : Server) (s : Bfs) : Prop extends SafeInv s where
+  own : ∀ f ∈ s.descriptors, f ∈ srv.files
+  fresh : ∀ m ∈ s.missing, m ∉ s.present
+  wantedBy : ∀ m ∈ s.missing, ∃ f ∈ s.descriptors, m ∈ f.deps
+
+theorem missing_is_file {srv : Server} (hwf : WFFiles srv.files) {s : Bfs} (hs : LiveInv srv s) :
+    ∀ m ∈ s.missing, m ∈ fileNames srv.files := by
+  intro m hm
+  rcases hs.wantedBy m hm with ⟨f, hf, hd⟩
+  exact hwf.closed f (hs.own f hf) m hd
+
+/-- one round against a conformant target: the batch succeeds, nothing asked for stays missing,
+    the invariant is kept, and every file received answers a request of this round -/
+theorem live_step {srv : Server} {pol : Policy} {sched : Sched} (hwf : WFFiles srv.files)
+    (hc : Conformant srv pol) (hfair : FairSched sched) {s : Bfs} (hs : LiveInv srv s) :
+    ∃ h got, execBatch pol s.hist ((sched s.hist s.missing).map Request.filename) = (h, .ok got) ∧
+      (∀ m ∈ s.missing, m ∈ fileNames (dedupFiles [] got)) ∧
+      shrinkMissing (dedupFiles [] got) s.missing = [] ∧
+      LiveInv srv (nextState (dedupFiles []) h got s) ∧
+      (∀ f ∈ got, ∃ m ∈ s.missing, ∃ h'' fs, pol h'' (.filename m) = .files fs ∧ f ∈ fs) := by
+  have hmf := missing_is_file hwf hs
+  have hsucc : ∀ q ∈ (sched s.hist s.missing).map Request.filename, ∀ h'', ∃ fs, pol h'' q = .files fs := by
+    intro q hq h''
+    rcases List.mem_map.1 hq with ⟨m, hm, rfl⟩
+    rcases hc.filename h'' m (hmf m ((hfair _ _ _).1 hm)) with ⟨fs, e, _⟩
+    exact ⟨fs, e⟩
+  rcases execBatch_succeeds pol _ s.hist hsucc with ⟨h, got, hb⟩
+  have hgot := execBatch_ok pol _ _ _ _ hb
+  have hall : ∀ m ∈ s.missing, m ∈ fileNames (dedupFiles [] got) := by
+    intro m hm
+    have hq : Request.filename m ∈ (sched s.hist s.missing).map Request.filename :=
+      List.mem_map.2 ⟨m, (hfair _ _ _).2 hm, rfl⟩
+    rcases hgot.2 _ hq with ⟨h'', fs, e1, e2⟩
+    rcases hc.filename h'' m (hmf m hm) with ⟨fs', e1', hin⟩
+    rw [e1] at e1'
+    injection e1' with e1'
+    subst e1'
+    rcases mem_fileNames.1 hin with ⟨g, hg, hgn⟩
+    exact (dedupFiles_nil_names got m).2 (mem_fileNames.2 ⟨g, e2 g hg, hgn⟩)
+  have hshrink : shrinkMissing (dedupFiles [] got) s.missing = [] := by
+    unfold shrinkMissing
+    rw [List.filter_eq_nil_iff]
+    intro m hm
+    simpa using hall m hm
+  have hown : ∀ f ∈ got, f ∈ srv.files := by
+    intro f hf
+    rcases hgot.1 f hf with ⟨h'', q, fs, _, b, c⟩
+    exact hc.honest h'' q fs b f c
+  refine ⟨h, got, hb, hall, hshrink, ?_, ?_⟩
+  · have hsafe := safeInv_next s h got hs.toSafeInv hshrink
+    have hown' : ∀ f ∈ (nextState (dedupFiles []) h got s).descriptors, f ∈ srv.files := by
+      intro f hf
+      have hf' : f ∈ s.descriptors ++ (dedupFiles [] got).filter (fun f => f.name ∉ s.present) := hf
+      rcases List.mem_append.1 hf' with hf | hf
+      · exact hs.own f hf
+      · exact hown f (mem_dedupFiles got [] f (List.mem_filter.1 hf).1).1
+    have hmiss : ∀ m, m ∈ (nextState (dedupFiles []) h got s).missing ↔
+        ((∃ f ∈ dedupFiles [] got, m ∈ f.deps) ∧ m ∉ s.present ++ fileNames (dedupFiles [] got)) := by
+      intro m
+      show m ∈ growMissing (dedupFiles [] got) (s.present ++ fileNames (dedupFiles [] got)) (shrinkMissing (dedupFiles [] got) s.missing) ↔ _
+      rw [mem_growMissing, hshrink]
+      simp
+    refine { toSafeInv := hsafe, own := hown', fresh := ?_, wantedBy := ?_ }
+    · intro m hm
+      exact ((hmiss m).1 hm).2
+    · intro m hm
+      rcases ((hmiss m).1 hm).1 with ⟨f, hf, hd⟩
+      refine ⟨f, ?_, hd⟩
+      show f ∈ s.descriptors ++ (dedupFiles [] got).filter (fun f => f.name ∉ s.present)
+      by_cases hp : f.name ∈ s.present
+      · rcases mem_fileNames.1 ((hs.present _).1 hp) with ⟨f', hf', hn⟩
+        have : f' = f := eq_of_name_eq hwf.nodup (hs.own f' hf') (hown f (mem_dedupFiles got [] f hf).1) hn
+        subst this
+        exact List.mem_append_left _ hf'
+      · exact List.mem_append_right _ (List.mem_filter.2 ⟨hf, by simpa using hp⟩)
+  · intro f hf
+    rcases hgot.1 f hf with ⟨h'', q, fs, hq, b, c⟩
+    rcases List.mem_map.1 hq with ⟨m, hm, rfl⟩
+    exact ⟨m, (hfair _ _ _).1 hm, h'', fs, b, c⟩
+
+/-- liveness of the loop for any round-indexed invariant `P` that forces `missing = []` at 0 -/
+theorem bfsLoop_live {srv : Server} {pol : Policy} {sched : Sched} (hwf : WFFiles srv.files)
+    (hc : Conformant srv pol) (hfair : FairSched sched) (P : Nat → Bfs → Prop)
+    (hzero : ∀ s, LiveInv srv s → P 0 s → s.missing = [])
+    (hstep : ∀ fuel s h got, LiveInv srv s → P (fuel + 1) s → s.missing ≠ [] →
+      (∀ m ∈ s.missing, m ∈ fileNames (dedupFiles [] got)) →
+      (∀ f ∈ got, ∃ m ∈ s.missing, ∃ h'' fs, pol h'' (.filename m) = .files fs ∧ f ∈ fs) →
+      LiveInv srv (nextState (dedupFiles []) h got s) →
+      P fuel (nextState (dedupFiles []) h got s)) :
+    ∀ (fuel : Nat) (s : Bfs), LiveInv srv s → P fuel s →
+      ∃ h ds, bfsLoop (dedupFiles []) pol sched fuel s = (h, .ok ds) := by
+  intro fuel
+  induction fuel with
+  | zero =>
+    intro s hs hp
+    refine ⟨s.hist, s.descriptors, ?_⟩
+    unfold bfsLoop
+    simp [hzero s hs hp]
+  | succ fuel ih =>
+    intro s hs hp
+    by_cases hm : s.missing = []
+    · refine ⟨s.hist, s.descriptors, ?_⟩
+      unfold bfsLoop
+      simp [hm]
+    · rcases live_step hwf hc hfair hs with ⟨h, got, hb, hall, hshrink, hnext, hprov⟩
+      rcases ih _ hnext (hstep fuel s h got hs hp hm hall hprov hnext) with ⟨h', ds, hl⟩
+      refine ⟨h', ds, ?_⟩
+      unfold bfsLoop
+      have : s.missing.isEmpty = false := by
+        cases hmm : s.missing with
+        | nil => exact absurd hmm hm
+        | cons _ _ => rfl
+      simp only [this, Bool.false_eq_true, ↓reduceIte, hb, hshrink, List.isEmpty_nil, Bool.not_true]
+      exact hl
+
+theorem filter_length_lt {α : Type} (p q : α → Bool) : ∀ (l : List α),
+    (∀ x ∈ l, p x = true → q x = true) → (∃ x ∈ l, q x = true ∧ p x = false) →
+      (l.filter p).length < (l.filter q).length := by
+  intro l
+  induction l with
+  | nil => intro _ h; rcases h with ⟨x, hx, _⟩; simp at hx
+  | cons a rest ih =>
+    intro himp hex
+    have hle : ∀ (l : List α), (∀ x ∈ l, p x = true → q x = true) → (l.filter p).length ≤ (l.filter q).length := by
+      intro l
+      induction l with
+      | nil => intro _; simp
+      | cons b r ihr =>
+        intro hi
+        have := ihr (fun x hx => hi x (List.mem_cons_of_mem _ hx))
+        simp only [List.filter_cons]
+        cases hpb : p b
+        · cases hqb : q b <;> simp <;> omega
+        · have := hi b List.mem_cons_self hpb
+          simp [this]; omega
+    have himp' : ∀ x ∈ rest, p x = true → q x = true := fun x hx => himp x (List.mem_cons_of_mem _ hx)
+    simp only [List.filter_cons]
+    rcases hex with ⟨x, hx, hq, hp⟩
+    rcases List.mem_cons.1 hx with e | hx'
+    · subst e
+      have := hle rest himp'
+      simp [hq, hp]; omega
+    · have := ih himp' ⟨x, hx', hq, hp⟩
+      cases hpa : p a
+      · cases hqa : q a <;> simp <;> omega
+      · have := himp a List.mem_cons_self hpa
+        simp [this]; omega
+
+/-! ### the whole conversation against a conformant target -/
+
+theorem wanted_of_mem_names {cfg : Cfg} {raw : List Name} {n : Name}
+    (h : n ∈ listServiceNames cfg raw) : wanted cfg raw n := by
+  have := (mem_listFilter cfg raw [] n).1 h
+  exact ⟨this.1, this.2.1, this.2.2.1⟩
+
+theorem mem_names_of_wanted {cfg : Cfg} {raw : List Name} {n : Name}
+    (h : wanted cfg raw n) : n ∈ listServiceNames cfg raw :=
+  (mem_listFilter cfg raw [] n).2 ⟨h.1, h.2.1, h.2.2, by simp⟩
+
+/-- the FileContainingSymbol batch against a conformant target -/
+theorem batch0_live {cfg : Cfg} {srv : Server} {pol : Policy} (hwf : WF cfg srv) (hc : Conformant srv pol)
+    (h0 : History) :
+    ∃ h1 got, execBatch pol h0 ((listServiceNames cfg srv.listed).map Request.symbol) = (h1, .ok got) ∧
+      (∀ f ∈ got, f ∈ srv.files) ∧
+      (∀ n ∈ listServiceNames cfg srv.listed, ∃ f ∈ got, definesService f n) ∧
+      (∀ f ∈ got, ∃ n ∈ listServiceNames cfg srv.listed, ∃ h'' fs, pol h'' (.symbol n) = .files fs ∧ f ∈ fs) := by
+  have hsucc : ∀ q ∈ (listServiceNames cfg srv.listed).map Request.symbol, ∀ h'', ∃ fs, pol h'' q = .files fs := by
+    intro q hq h''
+    rcases List.mem_map.1 hq with ⟨n, hn, rfl⟩
+    rcases hc.symbol h'' n (hwf.defined n (wanted_of_mem_names hn)) with ⟨fs, e, _⟩
+    exact ⟨fs, e⟩
+  rcases execBatch_succeeds pol _ h0 hsucc with ⟨h1, got, hb⟩
+  have hgot := execBatch_ok pol _ _ _ _ hb
+  refine ⟨h1, got, hb, ?_, ?_, ?_⟩
+  · intro f hf
+    rcases hgot.1 f hf with ⟨h'', q, fs, _, b, c⟩
+    exact hc.honest h'' q fs b f c
+  · intro n hn
+    rcases hgot.2 _ (List.mem_map.2 ⟨n, hn, rfl⟩) with ⟨h'', fs, e1, e2⟩
+    rcases hc.symbol h'' n (hwf.defined n (wanted_of_mem_names hn)) with ⟨fs', e1', f, hf, hd⟩
+    rw [e1] at e1'
+    injection e1' with e1'
+    subst e1'
+    exact ⟨f, e2 f hf, hd⟩
+  · intro f hf
+    rcases hgot.1 f hf with ⟨h'', q, fs, hq, b, c⟩
+    rcases List.mem_map.1 hq with ⟨n, hn, rfl⟩
+    exact ⟨n, hn, h'', fs, b, c⟩
+
+theorem liveInv_init {srv : Server} (h : History) (got : List DFile) (hown : ∀ f ∈ got, f ∈ srv.files) :
+    LiveInv srv (initBfs h (dedupFiles [] got)) := by
+  refine { toSafeInv := safeInv_init h _ (nodup_dedupFiles got []), own := ?_, fresh := ?_, wantedBy := ?_ }
+  · intro f hf; exact hown f (mem_dedupFiles got [] f hf).1
+  · intro m hm
+    have := (mem_growMissing _ _ _ _).1 hm
+    rcases this with a | ⟨_, b⟩
+    · simp at a
+    · exact b
+  · intro m hm
+    have := (mem_growMissing _ _ _ _).1 hm
+    rcases this with a | ⟨b, _⟩
+    · simp at a
+    · exact b
+
+theorem runStream_live {cfg : Cfg} {srv : Server} {pol : Policy} {sched : Sched} (hwf : WF cfg srv)
+    (hc : Conformant srv pol) (hfair : FairSched sched) (hno : cfg.onlyServices = false)
+    (P : Nat → Bfs → Prop)
+    (hzero : ∀ s, LiveInv srv s → P 0 s → s.missing = [])
+    (hstep : ∀ fuel s h got, LiveInv srv s → P (fuel + 1) s → s.missing ≠ [] →
+      (∀ m ∈ s.missing, m ∈ fileNames (dedupFiles [] got)) →
+      (∀ f ∈ got, ∃ m ∈ s.missing, ∃ h'' fs, pol h'' (.filename m) = .files fs ∧ f ∈ fs) →
+      LiveInv srv (nextState (dedupFiles []) h got s) →
+      P fuel (nextState (dedupFiles []) h got s))
+    (hinit : ∀ h1 got, (∀ f ∈ got, f ∈ srv.files) →
+      (∀ n ∈ listServiceNames cfg srv.listed, ∃ f ∈ got, definesService f n) →
+      (∀ f ∈ got, ∃ n ∈ listServiceNames cfg srv.listed, ∃ h'' fs, pol h'' (.symbol n) = .files fs ∧ f ∈ fs) →
+      P cfg.limit (initBfs h1 (dedupFiles [] got))) :
+    ∃ h ok, runStream (dedupFiles []) cfg pol sched = (h, .ok ok) := by
+  rcases batch0_live hwf hc [(Request.list, Answer.listing srv.listed)] with ⟨h1, got, hb, hown, hdef, hprov⟩
+  rcases bfsLoop_live hwf.toWFFiles hc hfair P hzero hstep cfg.limit _ (liveInv_init h1 got hown)
+      (hinit h1 got hown hdef hprov) with ⟨h2, ds, hl⟩
+  refine ⟨h2, { names := listServiceNames cfg srv.listed, files := ds }, ?_⟩
+  unfold runStream
+  simp only [hc.list, hno, Bool.false_eq_true, ↓reduceIte, hb, retrieveDependencies_eq, hl]
+
+/-- (A) any conformant target: one new file per round at least, so `#files` rounds suffice -/
+theorem runStream_live_any {cfg : Cfg} {srv : Server} {pol : Policy} {sched : Sched} (hwf : WF cfg srv)
+    (hc : Conformant srv pol) (hfair : FairSched sched) (hno : cfg.onlyServices = false)
+    (hlim : srv.files.length ≤ cfg.limit) :
+    ∃ h ok, runStream (dedupFiles []) cfg pol sched = (h, .ok ok) := by
+  refine runStream_live hwf hc hfair hno
+    (fun fuel s => (srv.files.filter (fun f => decide (f.name ∉ s.present))).length ≤ fuel) ?_ ?_ ?_
+  · intro s hs hp
+    cases hm : s.missing with
+    | nil => rfl
+    | cons m rest =>
+      exfalso
+      have hmm : m ∈ s.missing := by rw [hm]; exact List.mem_cons_self
+      rcases mem_fileNames.1 (missing_is_file hwf.toWFFiles hs m hmm) with ⟨f, hf, hfn⟩
+      have hfil : f ∈ srv.files.filter (fun f => decide (f.name ∉ s.present)) :=
+        List.mem_filter.2 ⟨hf, by rw [hfn]; simpa using hs.fresh m hmm⟩
+      have : (srv.files.filter (fun f => decide (f.name ∉ s.present))).length = 0 := Nat.le_zero.1 hp
+      rw [List.length_eq_zero_iff.1 this] at hfil
+      simp at hfil
+  · intro fuel s h got hs hp hne hall hprov hnext
+    have hpres : (nextState (dedupFiles []) h got s).present = s.present ++ fileNames (dedupFiles [] got) := rfl
+    show (srv.files.filter (fun f => decide (f.name ∉ (nextState (dedupFiles []) h got s).present))).length ≤ fuel
+    rw [hpres]
+    have hlt := filter_length_lt (fun f : DFile => decide (f.name ∉ s.present ++ fileNames (dedupFiles [] got)))
+      (fun f : DFile => decide (f.name ∉ s.present)) srv.files
+      (by
+        intro x _ hx
+        simp only [decide_eq_true_eq] at hx ⊢
+        exact fun hin => hx (List.mem_append_left _ hin))
+      (by
+        cases hm : s.missing with
+        | nil => exact absurd hm hne
+        | cons m rest =>
+          have hmm : m ∈ s.missing := by rw [hm]; exact List.mem_cons_self
+          rcases mem_fileNames.1 (missing_is_file hwf.toWFFiles hs m hmm) with ⟨f, hf, hfn⟩
+          refine ⟨f, hf, ?_, ?_⟩
+          · rw [hfn]; simpa using hs.fresh m hmm
+          · rw [hfn]
+            have := List.mem_append_right s.present (hall m hmm)
+            simp only [decide_eq_false_iff_not, Decidable.not_not]
+            exact this)
+    omega
+  · intro h1 got _ _ _
+    exact Nat.le_trans (List.length_filter_le _ _) hlim
+
+/-! ### import distance -/
+
+theorem within_roots_mono {files : List DFile} {R1 R2 : List Name} (hsub : ∀ r ∈ R1, r ∈ R2) {k : Nat} {n : Name}
+    (hw : Within files R1 k n) : Within files R2 k n := by
+  induction hw with
+  | root hr => exact .root (hsub _ hr)
+  | step _ hi ih => exact .step ih hi
+  | mono _ ih => exact .mono ih
+
+theorem reach_trans {files : List DFile} {R : List Name} {m g : Name}
+    (h1 : Reach files R m) (h2 : Reach files [m] g) : Reach files R g := by
+  rcases h2 with ⟨k2, hw⟩
+  induction hw with
+  | @root n hr =>
+    have : n = m := by simpa using hr
+    rw [this]; exact h1
+  | step _ hi ih => rcases ih with ⟨k, hk⟩; exact ⟨k + 1, .step hk hi⟩
+  | mono _ ih => exact ih
+
+theorem reach_step {files : List DFile} {R : List Name} {a b : Name}
+    (h1 : Reach files R a) (hi : Imports files a b) : Reach files R b := by
+  rcases h1 with ⟨k, hk⟩; exact ⟨k + 1, .step hk hi⟩
+
+theorem within_zero {files : List DFile} {R : List Name} {n : Name} (h : Within files R 0 n) : n ∈ R := by
+  cases h with
+  | root hr => exact hr
+
+theorem within_succ {files : List DFile} {R : List Name} {k : Nat} {n : Name} (h : Within files R (k + 1) n) :
+    Within files R k n ∨ ∃ a, Within files R k a ∧ Imports files a n := by
+  cases h with
+  | step hw hi => exact Or.inr ⟨_, hw, hi⟩
+  | mono hw => exact Or.inl hw
+
+theorem mem_rootNames {cfg : Cfg} {srv : Server} {r : Name} :
+    r ∈ rootNames cfg srv ↔ ∃ f ∈ srv.files, f.name = r ∧ ∃ n, wanted cfg srv.listed n ∧ definesService f n := by
+  unfold rootNames
+  rw [mem_fileNames]
+  constructor
+  · rintro ⟨f, hf, rfl⟩
+    rcases List.mem_filter.1 hf with ⟨hf1, hf2⟩
+    rcases List.any_eq_true.1 hf2 with ⟨sv, hsv, hw⟩
+    exact ⟨f, hf1, rfl, sv.name, by simpa using hw, sv, hsv, rfl⟩
+  · rintro ⟨f, hf, rfl, n, hw, sv, hsv, rfl⟩
+    exact ⟨f, List.mem_filter.2 ⟨hf, List.any_eq_true.2 ⟨sv, hsv, by simpa using hw⟩⟩, rfl⟩
+
+/-- two files of a set with unique symbols that define the same service are the same file -/
+theorem unique_definer : ∀ {files : List DFile}, (symbols files).Nodup → ∀ {f g : DFile} {n : Name},
+    f ∈ files → g ∈ files → definesService f n → definesService g n → f = g := by
+  intro files
+  induction files with
+  | nil => intro _ f g n hf; simp at hf
+  | cons x rest ih =>
+    intro hn f g n hf hg hdf hdg
+    have hsym : symbols (x :: rest) = (x.messages ++ x.services.map (·.name)) ++ symbols rest := by
+      simp [symbols]
+    rw [hsym, List.nodup_append] at hn
+    have hin : ∀ {y : DFile}, y ∈ rest → definesService y n → n ∈ symbols rest := by
+      intro y hy hd
+      rcases hd with ⟨sv, hsv, rfl⟩
+      unfold symbols
+      exact List.mem_flatMap.2 ⟨y, hy, List.mem_append_right _ (List.mem_map.2 ⟨sv, hsv, rfl⟩)⟩
+    have hx : definesService x n → n ∈ x.messages ++ x.services.map (·.name) := by
+      rintro ⟨sv, hsv, rfl⟩
+      exact List.mem_append_right _ (List.mem_map.2 ⟨sv, hsv, rfl⟩)
+    rcases List.mem_cons.1 hf with e1 | hf'
+    · rcases List.mem_cons.1 hg with e2 | hg'
+      · rw [e1, e2]
+      · subst e1
+        exact absurd rfl (hn.2.2 n (hx hdf) n (hin hg' hdg))
+    · rcases List.mem_cons.1 hg with e2 | hg'
+      · subst e2
+        exact absurd rfl (hn.2.2 n (hx hdg) n (hin hf' hdf))
+      · exact ih hn.2.1 hf' hg' hdf hdg
+
+/-- (B) a conformant target whose answers stay inside the closure of the request: as many rounds as the
+    breadth-first import depth below the wanted services' files suffice -/
+theorem runStream_live_focused {cfg : Cfg} {srv : Server} {pol : Policy} {sched : Sched} (hwf : WF cfg srv)
+    (hc : Conformant srv pol) (hfoc : Focused srv pol) (hfair : FairSched sched)
+    (hno : cfg.onlyServices = false)
+    (hdepth : ∀ n, Reach srv.files (rootNames cfg srv) n → Within srv.files (rootNames cfg srv) cfg.limit n) :
+    ∃ h ok, runStream (dedupFiles []) cfg pol sched = (h, .ok ok) := by
+  have hreachMissing : ∀ {s : Bfs}, LiveInv srv s →
+      (∀ f ∈ s.descriptors, Reach srv.files (rootNames cfg srv) f.name) →
+      ∀ m ∈ s.missing, Reach srv.files (rootNames cfg srv) m := by
+    intro s hs hr m hm
+    rcases hs.wantedBy m hm with ⟨f, hf, hd⟩
+    exact reach_step (hr f hf) ⟨f, hs.own f hf, rfl, hd⟩
+  refine runStream_live hwf hc hfair hno
+    (fun fuel s => fuel ≤ cfg.limit ∧ (∀ f ∈ s.descriptors, Reach srv.files (rootNames cfg srv) f.name) ∧
+      (∀ n, Within srv.files (rootNames cfg srv) (cfg.limit - fuel) n → n ∈ s.present)) ?_ ?_ ?_
+  · rintro s hs ⟨_, hr, hw⟩
+    cases hm : s.missing with
+    | nil => rfl
+    | cons m rest =>
+      exfalso
+      have hmm : m ∈ s.missing := by rw [hm]; exact List.mem_cons_self
+      have := hw m (by simpa using hdepth m (hreachMissing hs hr m hmm))
+      exact hs.fresh m hmm this
+  · rintro fuel s h got hs ⟨hle, hr, hw⟩ hne hall hprov hnext
+    refine ⟨by omega, ?_, ?_⟩
+    · intro f hf
+      have hf' : f ∈ s.descriptors ++ (dedupFiles [] got).filter (fun f => f.name ∉ s.present) := hf
+      rcases List.mem_append.1 hf' with hf | hf
+      · exact hr f hf
+      · have hfg : f ∈ got := (mem_dedupFiles got [] f (List.mem_filter.1 hf).1).1
+        rcases hprov f hfg with ⟨m, hm, h'', fs, e, hin⟩
+        exact reach_trans (hreachMissing hs hr m hm) (hfoc.filename h'' m fs e f hin)
+    · intro n hn
+      show n ∈ s.present ++ fileNames (dedupFiles [] got)
+      have hidx : cfg.limit - fuel = (cfg.limit - (fuel + 1)) + 1 := by omega
+      rw [hidx] at hn
+      rcases within_succ hn with hprev | ⟨a, ha, hi⟩
+      · exact List.mem_append_left _ (hw n hprev)
+      · have hap := hw a ha
+        rcases mem_fileNames.1 ((hs.present a).1 hap) with ⟨f', hf', hfn⟩
+        rcases hi with ⟨f, hf, hfa, hd⟩
+        have : f' = f := eq_of_name_eq hwf.nodup (hs.own f' hf') hf (by rw [hfn, hfa])
+        subst this
+        rcases hs.deps f' hf' n hd with hp | hmiss
+        · exact List.mem_append_left _ hp
+        · exact List.mem_append_right _ (hall n hmiss)
+  · intro h1 got hown hdef hprov
+    refine ⟨Nat.le_refl _, ?_, ?_⟩
+    · intro f hf
+      have hfg : f ∈ got := (mem_dedupFiles got [] f hf).1
+      rcases hprov f hfg with ⟨n, hn, h'', fs, e, hin⟩
+      rcases hfoc.symbol h'' n fs e f hin with ⟨r, hr, hdr, hreach⟩
+      have hroot : r.name ∈ rootNames cfg srv :=
+        mem_rootNames.2 ⟨r, hr, rfl, n, wanted_of_mem_names hn, hdr⟩
+      rcases hreach with ⟨k, hk⟩
+      exact ⟨k, within_roots_mono (by intro x hx; have : x = r.name := by simpa using hx
+                                      rw [this]; exact hroot) hk⟩
+    · intro n hn
+      rw [Nat.sub_self] at hn
+      rcases mem_rootNames.1 (within_zero hn) with ⟨f, hf, hfn, sn, hw, hd⟩
+      rcases hdef sn (mem_names_of_wanted hw) with ⟨g, hg, hdg⟩
+      have : g = f := unique_definer hwf.symbols (hown g hg) hf hdg hd
+      subst this
+      show n ∈ fileNames (dedupFiles [] got)
+      exact (dedupFiles_nil_names got n).2 (mem_fileNames.2 ⟨g, hg, hfn⟩)
+
 end GB.C05
